@@ -349,6 +349,38 @@ func runC15(tier string, seed uint64, out *Out) {
 	c15flush = func() { out.w.Flush() }
 	rng := NewRNG(seed, "c15")
 	codecs := c15codecs()
+	// delivered results stay what the server sent (real region client, see c15alias.go)
+	if os.Getenv("VERIF_SHARD") == "" || os.Getenv("VERIF_SHARD") == "0" {
+		nAlias := 6
+		if !quick {
+			nAlias = 60
+		}
+		for i := 0; i < nAlias; i++ {
+			if !out.Want() {
+				out.n++
+				continue
+			}
+			cd := codecs[i%2]
+			if cd.name != "snappy" {
+				cd.codec = mockCodec{1000}
+			}
+			out.Line("%s", c15AliasScenario(NewRNG(seed, fmt.Sprintf("c15alias-%d", i)), strings.SplitN(cd.name, ":", 2)[0], cd.codec))
+		}
+		// what concurrent senders of one connection compress decompresses to their own payloads
+		// (free-running senders, see c05stress.go; rounds with snappy only)
+		nStress := 8
+		if !quick {
+			nStress = 80
+		}
+		for i := 0; i < nStress; i++ {
+			if !out.Want() {
+				out.n++
+				continue
+			}
+			round := 1 + i + i/3 // never a multiple of 4
+			out.Line("%s", strings.Replace(c05Stress(NewRNG(seed, fmt.Sprintf("c15s-%d", i)), round), "c05 ", "c15s ", 1))
+		}
+	}
 
 	emitComp := func(cd c15codec, bufs [][]byte) {
 		total := 0
